@@ -593,7 +593,7 @@ def r7_namespace_extraction(ctx):
 
 def run(ctx):
     ctx.rule('C01.R7', 'namespace extraction uses the frame\'s own '
-             'separators only', floor=2)
+             'separators only', floor=1)
     r7_namespace_extraction(ctx)
     ctx.rule('C01.R1', 'binary gate decision table (36 rows)', floor=36)
     r1_gate(ctx)
